@@ -4,7 +4,7 @@ From Coq Require Import List NArith ZArith String Bool.
 From GQL Require Import Exec.Syntax Validate.VSyntax Validate.Overlap Validate.OverlapSpec Validate.Rules
      Exec.Exec Proofs.ValidateOverlap Proofs.ValidateRules Proofs.ValidateMerge Proofs.ValidateMemo Proofs.ValidateInputFields Proofs.ValidateArgs Proofs.ValidateCycles Proofs.ValidateUnused Proofs.ValidateMemoHard Proofs.ValidateL1 Validate.All Proofs.ValidateAll Proofs.ValidateCyclesComplete
      Validate.OverlapWf Proofs.ValidateReflect Proofs.ValidateReflectClose Proofs.ValidateFuel Proofs.ValidateDecide
-     Proofs.ValidateWf Proofs.ValidateRank Proofs.ValidateWfDoc Proofs.ValidateClosure.
+     Proofs.ValidateWf Proofs.ValidateRank Proofs.ValidateWfDoc Proofs.ValidateClosure Proofs.ValidateRulesDecl Proofs.ValidateLiteral.
 Import ListNotations.
 Open Scope string_scope.
 
@@ -276,6 +276,67 @@ Theorem C02_rule_iff_no_unused_fragments : forall W,
 Proof. exact no_unused_fragments_iff_all. Qed.
 Print Assumptions C02_rule_iff_no_unused_fragments.
 
+(* ---- relational specifications of the helpers the simple rules share ---- *)
+
+(* RecursiveVariableUsages: the model's usages of an operation are exactly the usages that
+   occur in the operation or in a fragment reachable from it through spreads (inductive
+   Reach; UsedIn is defined in Proofs/ValidateRulesDecl.v). *)
+Theorem C02_recursive_variable_usages : forall S W o u, In u (rec_uses S W o) <-> UsedIn S W o u.
+Proof. exact rec_uses_iff. Qed.
+Print Assumptions C02_recursive_variable_usages.
+
+Theorem C02_rule_iff_no_undefined_variables_decl : forall S W,
+  rule_no_undefined_variables S W <> [] <-> Violates_no_undefined_variables_decl S W.
+Proof. exact no_undefined_variables_decl_iff. Qed.
+Print Assumptions C02_rule_iff_no_undefined_variables_decl.
+
+Theorem C02_rule_iff_no_unused_variables_decl : forall S W,
+  rule_no_unused_variables S W <> [] <-> Violates_no_unused_variables_decl S W.
+Proof. exact no_unused_variables_decl_iff. Qed.
+Print Assumptions C02_rule_iff_no_unused_variables_decl.
+
+(* isTypeSubTypeOf is the inductive subtype relation (equal names; object possible for an
+   abstract type; non-null covariant; non-null below nullable; lists covariant). *)
+Theorem C02_subtype_iff : forall S a b, subtype S a b = true <-> Subtype S a b.
+Proof. exact subtype_iff. Qed.
+Print Assumptions C02_subtype_iff.
+
+(* VariablesInAllowedPosition: a variable is used where its declared type -- made non-null
+   when it has a default value -- is not a subtype of the expected type. *)
+Theorem C02_rule_iff_variables_in_allowed_position_decl : forall S W,
+  rule_variables_in_allowed_position S W <> [] <-> Violates_variables_in_allowed_position_decl S W.
+Proof. exact variables_in_allowed_position_decl_iff. Qed.
+Print Assumptions C02_rule_iff_variables_in_allowed_position_decl.
+
+(* doTypesOverlap: two types overlap iff they are equal or share a possible object type. *)
+Theorem C02_types_overlap_iff : forall S t1 t2, types_overlap S t1 t2 = true <-> Overlaps S t1 t2.
+Proof. exact types_overlap_iff. Qed.
+Print Assumptions C02_types_overlap_iff.
+
+Theorem C02_rule_iff_possible_fragment_spreads_decl : forall S W,
+  rule_possible_fragment_spreads S W <> [] <-> Violates_possible_fragment_spreads_decl S W.
+Proof. exact possible_fragment_spreads_decl_iff. Qed.
+Print Assumptions C02_rule_iff_possible_fragment_spreads_decl.
+
+(* isValidLiteralValue is the inductive relation ValidLit (Proofs/ValidateLiteral.v): variables
+   anywhere; non-null = the inner type; a list literal elementwise, any other literal as a
+   single item; an input object: every provided field defined, the last value given for a
+   field valid for it, every field not given nullable; scalars by their parse function; enum
+   values by name; anything for other named types. *)
+Theorem C02_valid_literal_iff : forall S v t, vlit S v t = true <-> ValidLit S v t.
+Proof. exact vlit_iff. Qed.
+Print Assumptions C02_valid_literal_iff.
+
+Theorem C02_rule_iff_arguments_of_correct_type_decl : forall S W,
+  rule_arguments_of_correct_type S W <> [] <-> Violates_arguments_of_correct_type_decl S W.
+Proof. exact arguments_of_correct_type_decl_iff. Qed.
+Print Assumptions C02_rule_iff_arguments_of_correct_type_decl.
+
+Theorem C02_rule_iff_default_values_of_correct_type_decl : forall S W,
+  rule_default_values_of_correct_type S W <> [] <-> Violates_default_values_of_correct_type_decl S W.
+Proof. exact default_values_of_correct_type_decl_iff. Qed.
+Print Assumptions C02_rule_iff_default_values_of_correct_type_decl.
+
 (* ---- the executable overlap algorithm decides the declarative layers ---- *)
 
 (* Reflection of the unmemoised executable (the fuelled conflict finder as coded, fragments
@@ -366,7 +427,8 @@ Qed.
 Print Assumptions C02_overlap_exec_decides_b.
 
 (* The validator's model accepts a document iff no rule is violated (Violates r is the
-   declarative predicate of rule r; for the overlap rule it is ~ L1_accepts).  The hypotheses
+   declarative predicate of rule r -- the relational _decl form where one exists; for the
+   overlap rule it is ~ L1_accepts).  The hypotheses
    are decidable and hold for every parsed document over a schema the library accepts (the
    runner checks them on every case): distinct
    non-zero selection ids, no redefinition of __typename / String, enough fuel.  Unique
